@@ -89,7 +89,7 @@ OnCase(ev, idx) ==
 (* en: a rule is asked to match *)
 OnEnter(ev, idx) ==
    /\ stk' = Append(stk, [r |-> ev.r, A |-> ev.A, M |-> ev.M, b |-> ev.b, l |-> ev.l, c |-> ev.c, o |-> ev.o,
-                          e |-> ev.e, mx |-> ev.o, ph |-> 0, na |-> 0, av |-> -1, af |-> ev.af, cf |-> ev.cf,
+                          e |-> ev.e, mx |-> ev.o, ph |-> 0, na |-> 0, ni |-> 0, iv |-> -1, av |-> -1, af |-> ev.af, cf |-> ev.cf,
                           d |-> ev.d, s |-> ev.s])
    /\ verd' = verd \o PosV(ev, idx, ev.r) \o BoundV(ev, idx, ev.r)
    /\ cnt' = Bump(Bump(cnt, "pos"), "ev")
@@ -159,6 +159,31 @@ OnApply(ev, idx) ==
            /\ cnt' = Bump(Bump(cnt, "act"), "ev")
            /\ UNCHANGED <<cs, lastx>>
 
+(* ia i0: an action listed in if_apply< R, As... > / apply< As... > / apply0< As... > ran (C04) *)
+OnIa(ev, idx) ==
+   IF stk = <<>> \/ OpOf(Top.r) \notin {"if_apply", "apply", "apply0"}
+   THEN /\ verd' = Append(verd, V("C04", idx, 0, "listed action ran outside an if_apply/apply/apply0 rule", ev.n, 0))
+        /\ cnt' = Bump(cnt, "ev")
+        /\ UNCHANGED <<stk, cs, lastx>>
+   ELSE LET f == Top
+            op == OpOf(f.r)
+            pp == Nodes[f.r].p
+            k  == f.ni + 1                      \* this is the k-th listed action
+            want0 == op = "apply0"
+            kidT == IF op = "if_apply" THEN D!Den(Nodes[f.r].kids[1], f.o, CtxOf(f), DenFuel) ELSE D!RT(f.o)
+        IN /\ stk' = [stk EXCEPT ![Len(stk)] = [f EXCEPT !.ni = k, !.iv = ev.v]]
+           /\ verd' = verd
+                \o If(f.A # 1, V("C04", idx, f.r, "listed action invoked while actions are disabled", ev.n, 0))
+                \o If((ev.k = "i0") # want0, V("C04", idx, f.r, "apply called where apply0 is listed or vice versa", ev.k, op))
+                \o If(2 * k > Len(pp) \/ (2 * k <= Len(pp) /\ pp[2*k] # ev.n), V("C04", idx, f.r, "listed actions called out of order or too often", ev.n, k))
+                \o If(f.iv = 2, V("C04", idx, f.r, "listed action called after an earlier one returned false", ev.n, k))
+                \o If(ev.k = "ia" /\ ev.o # f.o, V("C04", idx, f.r, "action input does not begin where the match began", ev.o, f.o))
+                \o If(ev.k = "ia" /\ kidT.k = "T" /\ ev.eo # kidT.e, V("C04", idx, f.r, "action input does not end where the match ended", ev.eo, kidT.e))
+                \o If(ev.k = "ia" /\ kidT.k \in {"F", "X"}, V("C04", idx, f.r, "listed action invoked although the rule did not match", ev.eo, kidT))
+                \o (IF ev.k = "ia" THEN PosV(ev, idx, f.r) ELSE <<>>)
+           /\ cnt' = Bump(Bump(cnt, "act"), "ev")
+           /\ UNCHANGED <<cs, lastx>>
+
 -----------------------------------------------------------------------------
 (* comparison of an observed outcome with the denotation (C01, C09, C05, ...) *)
 XClassOf(who) == IF who > 0 \/ who \in {D!XActParseError, D!XDepth} THEN 1 ELSE IF who = D!XActForeign THEN 3 ELSE 0
@@ -203,6 +228,11 @@ OnExit(ev, idx) ==
                 \o If(f.av = 2 /\ (ev.v # 0 \/ ev.o # f.o), V("C04", idx, f.r, "action returned false but the match was not turned into a failure at its start", ev.v, ev.o))
                 \o If(ev.v = 1 /\ vis /\ f.A = 1 /\ D!AKind(f.r, f.af) # 0 /\ f.na # 1,
                       V("C04", idx, f.r, "successful match of a rule with an action without exactly one action call", f.na, 0))
+                \o If(OpOf(f.r) \in {"if_apply", "apply", "apply0"} /\ f.A = 0 /\ f.ni # 0,
+                      V("C04", idx, f.r, "listed actions ran while actions are disabled", f.ni, 0))
+                \o If(OpOf(f.r) \in {"apply", "apply0"} /\ f.A = 1 /\ f.ni # D!IaCalled(Nodes[f.r].p, 0, OpOf(f.r) = "apply0"),
+                      V("C04", idx, f.r, "not exactly the listed actions up to the first false were called", f.ni, 0))
+                \o If(f.iv = 2 /\ (ev.v # 0 \/ ev.o # f.o), V("C04", idx, f.r, "listed action returned false but the match was not turned into a failure at its start", ev.v, ev.o))
                 \* C18
                 \o If(ev.e # f.e, V("C18", idx, f.r, "logical end of the input not restored", f.e, ev.e))
                 \o If(ev.d # f.d, V("C18", idx, f.r, "depth counter not restored", f.d, ev.d))
@@ -241,11 +271,11 @@ OnExc(ev, idx) ==
 
 -----------------------------------------------------------------------------
 (* end: parse() returned or threw (C01, C05) *)
-MsgOf(who) ==
+MsgOf(who, m) ==
    IF who = D!XActParseError THEN "action veto"
    ELSE IF who = D!XDepth THEN "maximum parser rule nesting depth exceeded"
    ELSE IF who < 1 THEN ""
-   ELSE IF Nodes[who].op = "raise" THEN (IF Nodes[who].hasmsg = 1 THEN Nodes[who].emsg ELSE "parse error matching " \o Nodes[who].s)
+   ELSE IF m = 1 THEN (IF Nodes[who].thas = 1 THEN Nodes[who].tmsg ELSE "parse error matching " \o Nodes[who].s)   \* raise< T >: Control< T >::raise
    ELSE IF Nodes[who].hasmsg = 1 THEN Nodes[who].emsg
    ELSE "parse error matching " \o Nodes[who].dn
 
@@ -264,8 +294,8 @@ OnEnd(ev, idx) ==
    IN /\ verd' = verd
            \o If(stk # <<>>, V("C08", idx, 0, "run ended with open invocations", Len(stk), 0))
            \o If(~skip /\ ~agree, V(PropOfRule(cs.g), idx, cs.g, "result of the run differs from the denotation", <<ev.v, ev.o, ev.x>>, d))
-           \o If(~skip /\ agree /\ perr /\ d.k = "X" /\ ev.msg # MsgOf(d.who),
-                 V("C05", idx, d.who, "parse_error does not name the first failing must/raise rule", ev.msg, MsgOf(d.who)))
+           \o If(~skip /\ agree /\ perr /\ d.k = "X" /\ ev.msg # MsgOf(d.who, d.m),
+                 V("C05", idx, d.who, "parse_error does not name the first failing must/raise rule", ev.msg, MsgOf(d.who, d.m)))
            \o If(~skip /\ agree /\ perr /\ d.k = "X" /\ ev.nested # d.n,
                  V("C05", idx, d.who, "nesting of the exception differs", ev.nested, d.n))
            \o If(perr /\ (ev.pl # D!PosLine(ev.pb - cs.ib, PosCtx) \/ ev.pc # D!PosCol(ev.pb - cs.ib, PosCtx)) /\ ev.pb - cs.ib >= 0 /\ ev.pb - cs.ib <= Len(cs.w),
@@ -292,6 +322,7 @@ Step(ev, idx) ==
      [] ev.k = "ex"   -> OnExit(ev, idx)
      [] ev.k \in {"st", "su", "fa", "uw"} -> OnHook(ev, idx)
      [] ev.k \in {"ap", "a0"} -> OnApply(ev, idx)
+     [] ev.k \in {"ia", "i0"} -> OnIa(ev, idx)
      [] ev.k = "xc"   -> OnExc(ev, idx)
      [] ev.k = "ra"   -> OnRaise(ev, idx)
      [] ev.k = "case" -> OnCase(ev, idx)
